@@ -80,7 +80,7 @@ class Run(object):
     pass
 
 
-def run_session(cfg, csv_path, symbols, data_source=None, probe_signals=False, hooks=None):
+def run_session(cfg, csv_path, symbols, data_source=None, probe_signals=False, hooks=None, data_handler=None):
     """
     cfg keys: start, end, rebalance, weekday, long_only, buffer, leverage, fee, cash, burn_in, universe, alpha, adjust.
     Returns a Run with fills, history, equity_curve, allocations, calls, exception info.
@@ -90,7 +90,8 @@ def run_session(cfg, csv_path, symbols, data_source=None, probe_signals=False, h
     universe = build_universe(q, cfg['universe'])
     ds = data_source or q.CSVDailyBarDataSource(csv_path, q.Equity, adjust_prices=cfg.get('adjust', True),
                                                 csv_symbols=list(symbols))
-    dh = q.BacktestDataHandler(universe, data_sources=[ds])
+    dh = data_handler or q.BacktestDataHandler(universe, data_sources=[ds])
+    r_dh = dh
     acfg = cfg['alpha']
     signals = None
     sig = {}
@@ -156,6 +157,7 @@ def run_session(cfg, csv_path, symbols, data_source=None, probe_signals=False, h
         r.exc = e
         r.bt = r.port = None
         r.history, r.equity_curve, r.allocations, r.cash, r.holdings = [], [], [], None, {}
+        r.alloc_table, r.data_handler = [], r_dh
         return r
     r.bt = bt
     port = bt.broker.portfolios[bt.portfolio_id]
@@ -187,6 +189,16 @@ def run_session(cfg, csv_path, symbols, data_source=None, probe_signals=False, h
     r.allocations = list(holder['stats']['target_allocations']) if holder.get('stats') else list(bt.target_allocations)
     r.cash = port.cash
     r.holdings = {a: d['quantity'] for a, d in port.portfolio_to_dict().items()}
+    r.data_handler = r_dh
+    # the public allocation table (one row per equity date), when it can be built
+    r.alloc_table = []
+    if r.allocations and r.equity_curve:
+        try:
+            bt.target_allocations = r.allocations
+            tab = bt.get_target_allocations()
+            r.alloc_table = [(d, [(c, tab.loc[d][c]) for c in tab.columns]) for d in tab.index]
+        except Exception as e:                                   # noqa
+            r.alloc_table = [('error', type(e).__name__)]
     return r
 
 
@@ -198,15 +210,22 @@ def digest(r, upto=None):
     eq = [repr((t, v)) for t, v in r.equity_curve if keep(t)]
     al = [repr(list(row.items())) for row in r.allocations if keep(row['Date'])]
     fills = [repr(f) for f in r.fills if keep(f[0])]
-    return {'history': hist, 'equity': eq, 'allocations': al, 'fills': fills}
+    tab = []
+    for d, row in getattr(r, 'alloc_table', []):
+        if d == 'error':
+            tab.append(repr(row))
+        elif upto is None or d <= upto.date():
+            tab.append(repr((d, row)))
+    return {'history': hist, 'equity': eq, 'allocations': al, 'fills': fills, 'alloc_table': tab}
 
 
 def first_diff(a, b):
-    for k in ('fills', 'history', 'equity', 'allocations'):
-        if a[k] != b[k]:
-            for i, (x, y) in enumerate(zip(a[k], b[k])):
+    for k in ('fills', 'history', 'equity', 'allocations', 'alloc_table'):
+        if a.get(k, []) != b.get(k, []):
+            a_, b_ = a.get(k, []), b.get(k, [])
+            for i, (x, y) in enumerate(zip(a_, b_)):
                 if x != y:
                     return '%s[%d]: %s  vs  %s' % (k, i, x[:220], y[:220])
             return '%s: lengths %d vs %d (first extra: %s)' % (
-                k, len(a[k]), len(b[k]), (a[k] + b[k])[min(len(a[k]), len(b[k]))][:220])
+                k, len(a_), len(b_), (a_ + b_)[min(len(a_), len(b_))][:220] if len(a_) != len(b_) else '')
     return None
